@@ -241,3 +241,327 @@ def regenerate():
     if old != text:
         open(OUT, "w").write(text)
     return True, "regenerated"
+
+
+# =================================================================================================
+# T-src for the two remaining table-like sources (DESIGN.md §2.2):
+#   (a) the built-in alias block of main/src/predefined_node/mod.rs  →  Generated/AliasSrc.lean   (C01)
+#   (b) the control-picture table of main/src/formatter.rs           →  Generated/VisTableSrc.lean (C14)
+# Both translators accept a tiny subset and raise `Unsupported` on anything else.
+
+ALIAS_SRC = "/repo/main/src/predefined_node/mod.rs"
+ALIAS_OUT = os.path.join(LEAN, "PestTyped", "Generated", "AliasSrc.lean")
+VIS_SRC = "/repo/main/src/formatter.rs"
+VIS_OUT = os.path.join(LEAN, "PestTyped", "Generated", "VisTableSrc.lean")
+
+
+def strip_comments(src):
+    """Removes `//…` and (non-nested) `/* … */` comments outside char / string literals."""
+    out, i, n = [], 0, len(src)
+    while i < n:
+        c = src[i]
+        if src.startswith("//", i):
+            j = src.find("\n", i)
+            i = n if j < 0 else j
+        elif src.startswith("/*", i):
+            j = src.find("*/", i + 2)
+            if j < 0:
+                raise Unsupported("unterminated block comment")
+            if "/*" in src[i + 2:j]:
+                raise Unsupported("nested block comment")
+            out.append(" ")
+            i = j + 2
+        elif c == '"':
+            if re.search(r"(?<![A-Za-z0-9_])b?r#*$", "".join(out[-8:])):
+                raise Unsupported("raw string literal")
+            j = i + 1
+            while j < n and src[j] != '"':
+                j += 2 if src[j] == "\\" else 1
+            out.append(src[i:j + 1])
+            i = j + 1
+        elif c == "'":
+            m = CHARLIT.match(src, i)
+            if m:
+                out.append(m.group(0))
+                i = m.end()
+            else:       # a lifetime
+                out.append(c)
+                i += 1
+        else:
+            out.append(c)
+            i += 1
+    return "".join(out)
+
+
+CHARLIT = re.compile(r"'(\\x[0-9a-fA-F]{2}|\\u\{[0-9a-fA-F_]{1,8}\}|\\[nrt0\\'\"]|[^\\'\n])'")
+
+
+def char_value(lit):
+    """Code point of a Rust char literal (the whole token, quotes included)."""
+    m = CHARLIT.fullmatch(lit)
+    if not m:
+        raise Unsupported("char literal " + lit)
+    b = m.group(1)
+    if b.startswith("\\x"):
+        v = int(b[2:], 16)
+        if v > 0x7f:
+            raise Unsupported("\\x escape above 7f in a char literal: " + lit)
+        return v
+    if b.startswith("\\u"):
+        v = int(b[3:-1].replace("_", ""), 16)
+        if v > 0x10ffff or 0xd800 <= v <= 0xdfff:
+            raise Unsupported("not a scalar value: " + lit)
+        return v
+    if b.startswith("\\"):
+        return {"n": 10, "r": 13, "t": 9, "0": 0, "\\": 92, "'": 39, '"': 34}[b[1]]
+    return ord(b)
+
+
+# ---- (a) alias block ---------------------------------------------------------------------------
+
+TYTOK = re.compile(r"\s*(" + CHARLIT.pattern + r"|[A-Za-z_][A-Za-z0-9_]*|[<>,])")
+
+
+def _ty_tokens(text):
+    pos, out = 0, []
+    while pos < len(text):
+        if text[pos:].strip() == "":
+            break
+        m = TYTOK.match(text, pos)
+        if not m:
+            raise Unsupported("alias type: cannot tokenize " + text[pos:pos + 30])
+        out.append(m.group(1))
+        pos = m.end()
+    return out
+
+
+def _parse_ty(toks, i):
+    """type := IDENT ['<' arg (',' arg)* [','] '>'] ; arg := CHARLIT | type.  Returns (tree, next)."""
+    if i >= len(toks) or not re.match(r"[A-Za-z_]", toks[i]):
+        raise Unsupported("alias type: expected a type name at " + " ".join(toks[i:i + 3]))
+    name, i = toks[i], i + 1
+    args = None
+    if i < len(toks) and toks[i] == "<":
+        i += 1
+        args = []
+        while True:
+            if i >= len(toks):
+                raise Unsupported("alias type: unterminated `<`")
+            if toks[i] == ">":
+                i += 1
+                break
+            if toks[i].startswith("'"):
+                args.append(("char", char_value(toks[i])))
+                i += 1
+            else:
+                t, i = _parse_ty(toks, i)
+                args.append(t)
+            if i < len(toks) and toks[i] == ",":
+                i += 1
+            elif i < len(toks) and toks[i] == ">":
+                pass
+            else:
+                raise Unsupported("alias type: expected `,` or `>`")
+    return ("ty", name, args), i
+
+
+def _alias_node(tree, defined, choice_names):
+    """Lean `Node` term of a type tree (aliases defined earlier are inlined, as Rust resolves them)."""
+    _, name, args = tree
+    if name == "CharRange":
+        if args is None or len(args) != 2 or any(a[0] != "char" for a in args):
+            raise Unsupported("CharRange with arguments other than two char literals")
+        return f"(Node.range (Char.ofNat {args[0][1]}) (Char.ofNat {args[1][1]}))"
+    m = re.fullmatch(r"Choice(\d+)", name)
+    if m:
+        if name not in choice_names:
+            raise Unsupported(name + " is not imported from crate::choices")
+        if args is None or len(args) != int(m.group(1)) or any(a[0] != "ty" for a in args):
+            raise Unsupported(name + " with a wrong number / kind of arguments")
+        return "(Node.choice [" + ", ".join(_alias_node(a, defined, choice_names) for a in args) + "])"
+    if args is None and name in defined:
+        return defined[name]
+    raise Unsupported("alias type: unknown type " + name + ("<…>" if args is not None else ""))
+
+
+def translate_aliases(src=None):
+    src = open(ALIAS_SRC).read() if src is None else src
+    code = strip_comments(src)
+    if not re.search(r"\bpub\s+struct\s+CharRange\s*<\s*const\s+MIN\s*:\s*char\s*,\s*const\s+MAX\s*:\s*char\s*>", code):
+        raise Unsupported("`pub struct CharRange<const MIN: char, const MAX: char>` not found")
+    choice_names = set()
+    for m in re.finditer(r"\buse\s+crate::choices::(\{[^}]*\}|[A-Za-z0-9_]+)\s*;", code):
+        for n in re.findall(r"[A-Za-z0-9_]+", m.group(1)):
+            choice_names.add(n)
+    items = list(re.finditer(r"\bpub\s+type\s+([A-Za-z_][A-Za-z0-9_]*)\s*=\s*([^;]*);", code))
+    # every `type` keyword at item level of this file must be one of the aliases understood here
+    # (`type X = …;` inside impl blocks are associated types: they are indented, aliases are not)
+    top = [m for m in re.finditer(r"^(?:pub(?:\([a-z]+\))?\s+)?type\b[^\n]*", code, flags=re.M)]
+    if len(top) != len(items) or any(not t.group(0).startswith("pub type ") for t in top):
+        raise Unsupported("a top-level `type` item is not of the form `pub type NAME = TYPE;`")
+    if not items:
+        raise Unsupported("no `pub type` alias found")
+    defined, out = {}, []
+    for m in items:
+        name = m.group(1)
+        if name in defined:
+            raise Unsupported("alias defined twice: " + name)
+        toks = _ty_tokens(m.group(2))
+        tree, j = _parse_ty(toks, 0)
+        if j != len(toks):
+            raise Unsupported("alias type: trailing tokens in " + name)
+        node = _alias_node(tree, defined, choice_names)
+        defined[name] = node
+        out.append((name, node))
+    rows = ",\n".join(f'  ("{n}", {t})' for n, t in out)
+    return f"""/-
+GENERATED by checks/tsrc.py from /repo/main/src/predefined_node/mod.rs on every run — do not edit.
+Every top-level `pub type NAME = TYPE;` of that file, in source order, with `CharRange<'a','b'>` read as
+`Node.range`, `ChoiceN<…>` (imported from crate::choices) as `Node.choice […]` and earlier aliases inlined.
+-/
+import PestTyped.Model.Node
+namespace PestTyped.Src
+
+def builtinAliasSrc : List (String × Node) := [
+{rows}]
+
+end PestTyped.Src
+"""
+
+
+# ---- (b) control-picture table -------------------------------------------------------------------
+
+def translate_vis(src=None):
+    src = open(VIS_SRC).read() if src is None else src
+    code = strip_comments(src)
+    heads = list(re.finditer(r"\bfn\s+visualize_ws_and_cntrl\s*\(\s*([a-z_][a-z0-9_]*)\s*:\s*&\s*str\s*\)\s*->\s*String\s*\{", code))
+    if len(heads) != 1:
+        raise Unsupported(f"expected exactly one `fn visualize_ws_and_cntrl(<x>: &str) -> String`, found {len(heads)}")
+    h = heads[0]
+    arg = h.group(1)
+    depth, i = 1, h.end()
+    while depth:
+        if i >= len(code):
+            raise Unsupported("unbalanced braces in visualize_ws_and_cntrl")
+        if CHARLIT.match(code, i):
+            i = CHARLIT.match(code, i).end()
+            continue
+        depth += {"{": 1, "}": -1}.get(code[i], 0)
+        i += 1
+    body = code[h.end():i - 1]
+    m = re.fullmatch(r"\s*" + arg + r"\s*\.\s*chars\s*\(\s*\)\s*\.\s*map\s*\(\s*\|\s*([a-z_][a-z0-9_]*)\s*\|\s*match\s+([a-z_][a-z0-9_]*)\s*\{(.*)\}\s*\)\s*\.\s*collect\s*\(\s*\)\s*", body, flags=re.S)
+    if not m:
+        raise Unsupported("body is not `<x>.chars().map(|c| match c { … }).collect()`")
+    var, scrut, arms = m.group(1), m.group(2), m.group(3)
+    if var != scrut:
+        raise Unsupported("the match scrutinee is not the closure variable")
+    # arms := (CHARLIT '=>' CHARLIT ',')* (('_' | IDENT) '=>' IDENT ','?)
+    armtok = re.compile(r"\s*(" + CHARLIT.pattern + r"|=>|,|[A-Za-z_][A-Za-z0-9_]*)")
+    toks, pos = [], 0
+    while pos < len(arms):
+        if arms[pos:].strip() == "":
+            break
+        t = armtok.match(arms, pos)
+        if not t:
+            raise Unsupported("match arms: cannot tokenize " + arms[pos:pos + 30].strip())
+        toks.append(t.group(1))
+        pos = t.end()
+    table, k, catch_all = [], 0, False
+    while k < len(toks):
+        if catch_all:
+            raise Unsupported("an arm after the catch-all arm")
+        if toks[k].startswith("'"):
+            if k + 2 >= len(toks) or toks[k + 1] != "=>" or not toks[k + 2].startswith("'"):
+                raise Unsupported("arm is not `'x' => 'y'`")
+            table.append((char_value(toks[k]), char_value(toks[k + 2])))
+            k += 3
+            if k < len(toks):
+                if toks[k] != ",":
+                    raise Unsupported("missing `,` after an arm")
+                k += 1
+        else:
+            pat = toks[k]
+            if k + 2 >= len(toks) or toks[k + 1] != "=>":
+                raise Unsupported("catch-all arm is not `_ => c`")
+            res = toks[k + 2]
+            if not ((pat == "_" and res == var) or (pat == res and re.fullmatch(r"[a-z_][a-z0-9_]*", pat) and pat != "_")):
+                raise Unsupported(f"catch-all arm `{pat} => {res}` is not the identity")
+            catch_all = True
+            k += 3
+            if k < len(toks) and toks[k] == ",":
+                k += 1
+    if not catch_all:
+        raise Unsupported("no catch-all identity arm")
+    keys = [a for a, _ in table]
+    if len(set(keys)) != len(keys):
+        raise Unsupported("a pattern occurs twice (later arm unreachable)")
+    rows = ", ".join(f"(0x{a:x}, 0x{b:x})" for a, b in table)
+    return f"""/-
+GENERATED by checks/tsrc.py from /repo/main/src/formatter.rs (`visualize_ws_and_cntrl`) on every run — do not edit.
+`visTableSrc`: the arms `'x' => 'y'` of the `match`, in source order, as (code point, code point).  The translator
+checked that the function is `line.chars().map(|c| match c {{ … }}).collect()`, that no pattern occurs twice and that
+the LAST arm is the identity catch-all (`_ => c`): `visCharSrc` is therefore the meaning of the source `match`.
+-/
+namespace PestTyped.Src
+
+def visTableSrc : List (Nat × Nat) := [{rows}]
+
+/-- The source `match`: the first arm whose pattern is `c`, else the catch-all `_ => c`. -/
+def visCharSrc (c : Char) : Char :=
+  match visTableSrc.lookup c.toNat with
+  | some p => Char.ofNat p
+  | none => c
+
+end PestTyped.Src
+"""
+
+
+def _write(path, text):
+    os.makedirs(os.path.dirname(path), exist_ok=True)
+    old = open(path).read() if os.path.exists(path) else None
+    if old != text:
+        open(path, "w").write(text)
+
+
+def regenerate_aliases():
+    """Writes Generated/AliasSrc.lean if its content changed; returns (ok, message)."""
+    try:
+        _write(ALIAS_OUT, translate_aliases())
+    except Unsupported as e:
+        return False, "translator: unsupported syntax in predefined_node/mod.rs: " + str(e)
+    return True, "regenerated"
+
+
+def regenerate_vis():
+    """Writes Generated/VisTableSrc.lean if its content changed; returns (ok, message)."""
+    try:
+        _write(VIS_OUT, translate_vis())
+    except Unsupported as e:
+        return False, "translator: unsupported syntax in formatter.rs: " + str(e)
+    return True, "regenerated"
+
+
+def regenerate_all():
+    """All three generated files (used by setup.sh); returns [(name, ok, message)]."""
+    return [("parser_state.rs",) + tuple(regenerate()), ("predefined_node/mod.rs",) + tuple(regenerate_aliases()),
+            ("formatter.rs",) + tuple(regenerate_vis())]
+
+
+def pre_C01(ctx):
+    ok, msg = regenerate_aliases()
+    n = len(re.findall(r'^  \("', open(ALIAS_OUT).read(), flags=re.M)) if ok else 0
+    ctx.ties["T-src:predefined_node/mod.rs"] = {"cases": n, "agree": n if ok else 0, "observables": [
+        "every top-level `pub type` alias regenerated as a Lean `Node`; equality with Model/Gen.lean's `builtinNode` "
+        "and the list of alias names are proof obligations (Props/C01Src.lean)"]}
+    if not ok:
+        ctx.tie_broken("T-src:predefined_node/mod.rs", {"error": msg})
+
+
+def pre_C14(ctx):
+    ok, msg = regenerate_vis()
+    n = len(re.findall(r"\(0x", open(VIS_OUT).read())) if ok else 0
+    ctx.ties["T-src:formatter.rs"] = {"cases": n, "agree": n if ok else 0, "observables": [
+        "arms of `visualize_ws_and_cntrl` regenerated as `visTableSrc` (+ catch-all identity arm checked); equality "
+        "with Model/Text.lean's `visChar` on every character is a proof obligation (Props/C14Src.lean)"]}
+    if not ok:
+        ctx.tie_broken("T-src:formatter.rs", {"error": msg})
